@@ -227,7 +227,16 @@ Definition scope_valid (sc : list string) : bool := forallb is_selector sc.
 (* ---------- the non-recursive parts of gin_wrapper ---------- *)
 (* 1507-1539: applicable bindings minus the names the caller supplies positionally
    (REQUIRED positions keep their binding) *)
-Definition prep_bindings (cfg : cdict) (scope : list string) (c : cfgable) (args : list value) : pdict :=
+Definition prep_bindings (cfg : cdict) (scope : list string) (c : cfgable) (args : list value) (kwargs : pdict) : pdict :=
+  let arg_names := supplied_positional_names (c_sig c) args in
+  let caller_req_kw := map fst (filter (fun kv => is_req (snd kv)) kwargs) in
+  (* repaired code: names the caller supplies by keyword are dropped too, so that their bindings
+     are never evaluated *)
+  drop_names (map fst kwargs) caller_req_kw
+    (drop_names arg_names (required_positions arg_names args)
+                (get_bindings_for cfg scope (c_sel c) true)).
+(* the code before the repair: only positionally supplied names were dropped *)
+Definition prep_bindings_orig (cfg : cdict) (scope : list string) (c : cfgable) (args : list value) : pdict :=
   let arg_names := supplied_positional_names (c_sig c) args in
   drop_names arg_names (required_positions arg_names args)
              (get_bindings_for cfg scope (c_sel c) true).
@@ -353,7 +362,7 @@ with call (fuel : nat) (s : state) (sel : string) (args : list value) (kwargs : 
           let sstr := scope_str (current_scope s) in
           let arg_names := supplied_positional_names sg args in
           if existsb is_req (skipn (List.length arg_names) args) then (s, Raise "ValueError") else
-          let new_kwargs := prep_bindings (config s) (current_scope s) c args in
+          let new_kwargs := prep_bindings (config s) (current_scope s) c args kwargs in
           let s := oper_update s (sstr, sel) (prep_operative c args kwargs new_kwargs) in
           (* copy.deepcopy(new_kwargs) *)
           let '(s, rk) := (fix go (s : state) (l : pdict) : state * res pdict :=
